@@ -96,6 +96,11 @@ def split_check(ev, what, key, rp, ry, rn, nt_hint, query):
         # both forms print one is a stack on which X reports an error, and then neither ?X nor !X holds
         bad = "%d + %d stacks pass ?X / !X although X reported an error on %d of the %d" % (
             len(ry["res"]), len(rn["res"]), min(ry["stderr"].count(b"Error"), rn["stderr"].count(b"Error")), len(rp["res"]))
+    elif errs and what == "?word/!word" and ry["stderr"].count(b"Error") == rn["stderr"].count(b"Error") \
+            and len(ry["res"]) + len(rn["res"]) + ry["stderr"].count(b"Error") < len(rp["res"]):
+        # ... and a stack on which X reports nothing is in exactly one half, also when it comes after one on which X failed
+        bad = "%d + %d stacks pass ?X / !X and X reported an error on %d: %d of the %d input stacks are in neither half although X said nothing about them" % (
+            len(ry["res"]), len(rn["res"]), ry["stderr"].count(b"Error"), len(rp["res"]) - len(ry["res"]) - len(rn["res"]) - ry["stderr"].count(b"Error"), len(rp["res"]))
     elif y & n and not errs:
         # the same stack object in both halves is only possible if P yields it more than once
         dup = [k for k in (y & n) if y[k] + n[k] > p[k]]
